@@ -987,6 +987,8 @@ EditWith(e) ==
                   [] e.kind = "oobdel"  -> [cluster EXCEPT ![e.res] = Absent]
                   [] e.kind = "oobkeep" -> [cluster EXCEPT ![e.res].pol = "keep"]
                   [] e.kind = "oobunkeep" -> [cluster EXCEPT ![e.res].pol = "none"]
+                  \* somebody relabels the object (managed-by no longer says Helm; the release annotations stay)
+                  [] e.kind = "oobdisown" -> [cluster EXCEPT ![e.res].own = "partial"]
                   [] e.kind = "oobnew"  -> [cluster EXCEPT ![e.res] = [f1 |-> "q", f2 |-> "-", own |-> e.value, pol |-> "none"]]
   /\ last' = Lab(0, "edit", e.kind, IF e.kind = "edit" THEN e.field \o "=" \o e.value ELSE "", e.res, TRUE, FALSE)
   /\ hist' = Append(hist, [step |-> "edit", e |-> e])
